@@ -3,7 +3,8 @@
 From scrapli/decorators.py (AST): FUNC_TIMEOUT_MESSAGE_MAP, the default message of
 _get_timeout_message, the class-name tuple of the `cls_name in (...)` test inside the sync `decorate`
 of timeout_wrapper, and the other disjuncts of that test as source text (pinned by a Lean theorem); two AST-shape flags of
-the signal branch (restoresTimer, epilogueGuarded); the list of task-spawning call sites in the async classes.
+the signal branch (restoresTimer, epilogueGuarded); the list of task-spawning call sites in the async classes; the
+shape of both `decorate` variants of timeout_modifier (keep test operands, assignment, restore in finally) and its use sites.
 NOT read from the source, hand-written in ScrapliModel/Timeout.lean and tied only by the selection rig, the timed
 correspondence runs and the mutation self-test: `if not timeout` first, the try/finally of the signal branch, the pool
 `with` (= join) of the thread branch, `wait_for` of the asyncio branch.  From scrapli/settings.py:
@@ -209,10 +210,110 @@ def async_spawn_sites(dec):
     return sorted(out)
 
 
+def modifier_shape(tree):
+    """timeout_modifier (decorators.py): for the sync and the async `decorate` — the operands of the `or` test that
+    decides "keep the driver-level timeout_ops" (each classified: isNone = `<kwarg> is None`, eqDriver = `<kwarg> ==
+    <driver>.timeout_ops`, falsy = `not <kwarg>`; anything else is refused), whether the other branch assigns the
+    keyword's value to <driver>.timeout_ops before the wrapped call, whether the driver-level value is assigned back
+    and whether that sits in a `finally` around the wrapped call"""
+    tm = _func(tree, "timeout_modifier")
+    decs = [n for n in ast.walk(tm) if isinstance(n, (ast.FunctionDef, ast.AsyncFunctionDef)) and n is not tm]
+    if len(decs) != 2 or sum(isinstance(d, ast.AsyncFunctionDef) for d in decs) != 1:
+        raise TranslateError(f"{DEC}: timeout_modifier: expected one sync and one async inner function")
+    out = {}
+    for d in decs:
+        stack = "async" if isinstance(d, ast.AsyncFunctionDef) else "sync"
+        what = f"{DEC}: timeout_modifier ({stack})"
+        # the driver object and the keyword as the decorator sees it
+        drv = kwv = None
+        for n in ast.walk(d):
+            tgt = n.targets[0] if isinstance(n, ast.Assign) and len(n.targets) == 1 else n.target if isinstance(n, ast.AnnAssign) else None
+            if isinstance(tgt, ast.Name) and getattr(n, "value", None) is not None:
+                src = ast.unparse(n.value)
+                if src == "args[0]":
+                    drv = tgt.id
+                elif src in ("kwargs.get('timeout_ops', None)", "kwargs.get('timeout_ops')"):
+                    kwv = tgt.id
+        if drv is None or kwv is None:
+            raise TranslateError(f"{what}: `<driver> = args[0]` / `<kwarg> = kwargs.get('timeout_ops'[, None])` not found")
+        cur = f"{drv}.timeout_ops"
+        kw_exprs = (kwv, "kwargs['timeout_ops']")
+        is_call = lambda x: isinstance(x, ast.Call) and isinstance(x.func, ast.Name) and x.func.id == "wrapped_func"  # noqa
+        has_call = lambda nodes: any(is_call(x) for st in nodes for x in ast.walk(st))  # noqa
+        ifs = [n for n in d.body if isinstance(n, ast.If) and n.orelse and has_call(n.body) and has_call(n.orelse)]
+        if len(ifs) != 1:
+            raise TranslateError(f"{what}: expected one top-level `if <keep>: call else: modify, call`, found {len(ifs)}")
+        node = ifs[0]
+        if any(not isinstance(st, (ast.Assign, ast.AnnAssign, ast.Expr)) or not has_call([st]) for st in node.body):
+            raise TranslateError(f"{what}: the keep branch does more than call the wrapped function")
+        ops = node.test.values if isinstance(node.test, ast.BoolOp) and isinstance(node.test.op, ast.Or) else [node.test]
+        keep = []
+        for o in ops:
+            src = ast.unparse(o)
+            if src == f"{kwv} is None":
+                keep.append("isNone")
+            elif src in (f"{kwv} == {cur}", f"{cur} == {kwv}"):
+                keep.append("eqDriver")
+            elif src == f"not {kwv}":
+                keep.append("falsy")
+            else:
+                raise TranslateError(f"{what}: unrecognised operand of the keep test: `{src}`")
+        # the modifying branch: base = <driver>.timeout_ops ; <driver>.timeout_ops = <keyword> ; [try:] call [finally:] restore
+        base = None
+        sets = False
+        restores = in_finally = False
+        seen_call = False
+
+        def assigns(st, values):
+            return isinstance(st, ast.Assign) and len(st.targets) == 1 and ast.unparse(st.targets[0]) == cur and ast.unparse(st.value) in values
+        for st in node.orelse:
+            if isinstance(st, ast.Assign) and len(st.targets) == 1 and isinstance(st.targets[0], ast.Name) and ast.unparse(st.value) == cur and not sets:
+                base = st.targets[0].id
+            elif assigns(st, kw_exprs) and not seen_call:
+                sets = True
+            elif isinstance(st, ast.Try) and has_call(st.body):
+                if st.handlers or st.orelse:
+                    raise TranslateError(f"{what}: the try around the wrapped call has except/else clauses")
+                seen_call = True
+                if base is not None and any(assigns(x, (base,)) for x in st.finalbody):
+                    restores = in_finally = True
+            elif has_call([st]):
+                seen_call = True
+            elif base is not None and assigns(st, (base,)) and seen_call:
+                restores = True
+            elif isinstance(st, ast.Expr) and isinstance(st.value, ast.Call) and "logger" in ast.unparse(st.value.func):
+                pass
+            else:
+                raise TranslateError(f"{what}: unrecognised statement in the modifying branch: `{ast.unparse(st)[:70]}`")
+        if not seen_call:
+            raise TranslateError(f"{what}: the modifying branch does not call the wrapped function")
+        out[stack] = {"keep": keep, "sets": sets, "restores": restores, "restoreInFinally": in_finally}
+    return out
+
+
+def modifier_sites():
+    """[(class, method, is_async)] for every method decorated with @timeout_modifier, sorted"""
+    out = []
+    for p in sorted((REPO / "scrapli").rglob("*.py")):
+        tree = ast.parse(p.read_text())
+        for c in ast.walk(tree):
+            if isinstance(c, ast.ClassDef):
+                for f in c.body:
+                    if isinstance(f, (ast.FunctionDef, ast.AsyncFunctionDef)):
+                        for d in f.decorator_list:
+                            nm = d.id if isinstance(d, ast.Name) else d.attr if isinstance(d, ast.Attribute) else None
+                            if nm == "timeout_modifier":
+                                out.append((c.name, f.name, isinstance(f, ast.AsyncFunctionDef)))
+    if not out:
+        raise TranslateError("no method carries @timeout_modifier")
+    return sorted(out)
+
+
 def tables():
     tree = _parse(DEC)
     return {"messageMap": message_map(tree), "defaultMessage": default_message(tree), "threadClassNames": selection(tree), "selectDisjuncts": selection_disjuncts(tree),
-            "noTerminateDefault": no_terminate_default(), "restoresTimer": restores_timer(tree), "epilogueGuarded": epilogue_guarded(tree), "decorated": (dec := decorated()), "asyncSpawnSites": async_spawn_sites(dec)}
+            "noTerminateDefault": no_terminate_default(), "restoresTimer": restores_timer(tree), "epilogueGuarded": epilogue_guarded(tree), "decorated": (dec := decorated()), "asyncSpawnSites": async_spawn_sites(dec),
+            "modifier": modifier_shape(tree), "modifierSites": modifier_sites()}
 
 
 def generate():
@@ -242,5 +343,18 @@ def generate():
           "    awaited without being cancelled (ensure_future, create_task, asyncio.wait, gather, shield …) -/\n")
     b += "def asyncSpawnSites : List (String × String × String) := [" + ", ".join(
         f"({_lstr(c)}, {_lstr(f)}, {_lstr(n)})" for c, f, n in t["asyncSpawnSites"]) + "]\n"
+    b += ("/-- timeout_modifier (decorators.py): the AST shape of its two `decorate` variants — operands of the test that keeps the\n"
+          "    driver-level timeout_ops (isNone: `<kwarg> is None`, eqDriver: `<kwarg> == <driver>.timeout_ops`, falsy: `not <kwarg>`),\n"
+          "    does the other branch assign the keyword's value, is the driver-level value assigned back, in a `finally` -/\n")
+    for stack, nm in (("sync", "Sync"), ("async", "Async")):
+        m = t["modifier"][stack]
+        bl = lambda v: "true" if v else "false"  # noqa
+        b += f"def modKeep{nm} : List String := [" + ", ".join(_lstr(x) for x in m["keep"]) + "]\n"
+        b += f"def modSets{nm} : Bool := {bl(m['sets'])}\ndef modRestores{nm} : Bool := {bl(m['restores'])}\n"
+        b += f"def modRestoreInFinally{nm} : Bool := {bl(m['restoreInFinally'])}\n"
+    for nm, flag in (("modifiedSync", False), ("modifiedAsync", True)):
+        rows = [(c, m) for c, m, a in t["modifierSites"] if a == flag]
+        b += f"/-- (class, method) pairs carrying @timeout_modifier, {'async def' if flag else 'def'} -/\n"
+        b += f"def {nm} : List (String × String) := [" + ", ".join(f"({_lstr(c)}, {_lstr(m)})" for c, m in rows) + "]\n"
     b += "end Scrapli.Gen.Timeout\n"
     return [("ScrapliModel/Gen/TimeoutConsts.lean", b)]
